@@ -4,6 +4,7 @@ Shared by harness/props/c18.py (C18) and harness/props/loadfail.py (document-loa
 
   schema descriptor   {"kind": "schema", "fields": [[<key chars>, <field>], ...]}
                       field: {"kind": "any"} | {"kind": "int"} | {"kind": "include", "startdir": <chars>}
+                      (a start directory may begin with "~": the home directory, $/H while a case runs)
   file system         [[<path chars, "$" = scratch root>, <entry>], ...]
                       entry: {"k": "file", "v": <abstract value>} | {"k": "dir"} | {"k": "unparseable"}
                              | {"k": "unreadable"}
@@ -155,7 +156,7 @@ class FsWorld:
         self.unreadable = set()
         self.unrepresentable = set()  # abstract paths whose content has no document in this format
         os.makedirs(root, exist_ok=True)
-        for d in ("W", "docs"):
+        for d in ("W", "H", "docs"):
             os.makedirs(os.path.join(root, d), exist_ok=True)
         entries = [(text(p), e) for p, e in seq(fs)]
         for p, e in entries:
@@ -190,8 +191,10 @@ class FsWorld:
 
     @contextlib.contextmanager
     def active(self):
-        """Working directory $/W; opening an `unreadable` file raises PermissionError."""
+        """Working directory $/W, home directory $/H; opening an `unreadable` file raises PermissionError."""
         old_cwd = os.getcwd()
+        old_home = os.environ.get("HOME")
+        os.environ["HOME"] = os.path.join(self.root, "H")
         os.chdir(self.cwd)
         real_open = builtins.open
         unreadable = self.unreadable
@@ -213,6 +216,10 @@ class FsWorld:
         finally:
             builtins.open = real_open
             os.chdir(old_cwd)
+            if old_home is None:
+                os.environ.pop("HOME", None)
+            else:
+                os.environ["HOME"] = old_home
 
     def remove(self):
         shutil.rmtree(self.root, ignore_errors=True)
